@@ -194,8 +194,7 @@ def parseTrap (s : String) : Option Trap :=
 def parseTraps (s : String) : Option (List Trap) :=
   if s == "-" then some [] else (s.splitOn ";").mapM parseTrap
 
-def kernelCosts : Biogo.PalsKernel.Costs :=
-  { maxIGap := MaxIGap, diffCost := DiffCost, matchCost := MatchCost, blockCost := BlockCost, rMatchCost := RMatchCost }
+def kernelCosts : Biogo.PalsKernel.Costs := Biogo.Spec.PalsKernel.palsCosts
 
 def hitLe (a b : Hit) : Bool :=
   if a.abpos ≠ b.abpos then a.abpos < b.abpos
@@ -334,6 +333,14 @@ def handleCase (self : Bool) (minLen minIdMilli maxMemMB : Int) (plants : List P
           match hits.findSome? (modelWhy minLen minIdMilli) with
           | some w => diff w tags
           | none =>
+            -- the trapezoids handed to the aligner lie within the query rows (hypothesis of the kernel theorems;
+            -- `merger_output_within_rows`, `merger_output_wellformed`)
+            let outside := match trapsObs, givenTraps with
+              | some (t0, t1), none => (t0 ++ t1).find? fun (t : Trap) => !(decide (0 ≤ t.bottom) && decide (t.bottom ≤ t.top) && decide (t.top ≤ (query.size : Int)))
+              | _, _ => none
+            match outside with
+            | some t => fail s!"trapezoid-outside-the-query-rows {t.top}:{t.bottom}:{t.left}:{t.right}" tags
+            | none =>
             -- the kernel model on the trapezoids the implementation's aligner was given
             let (kw, tags) : Option String × List String :=
               match trapsObs with
